@@ -472,7 +472,7 @@ fn main() {
             if !matches!(ended, Ended::Exit(0, _)) {
                 rep.violation("process died or hung while running the hand-written corpus", "crash corpus", json!({"ended": format!("{ended:?}")}));
             }
-            let n: u64 = if thorough { 12_000 } else { 500 };
+            let n: u64 = if thorough { 12_000 } else if args.get(3).map(|s| s == "search").unwrap_or(false) { 3_000 } else { 500 };
             let (mut from, mut crashes) = (0u64, 0u32);
             while from < n && crashes < 4 {
                 let cnt = 50.min(n - from);
@@ -498,6 +498,20 @@ fn main() {
             }
             if crashes >= 4 {
                 rep.notes.push(format!("stopped after {crashes} crashes/hangs at program {from} of {n}"));
+            }
+            // many programs show the same defect: keep the few smallest minimised ones, one per key
+            let total_viol = rep.impl_violations.len();
+            let mut vs = std::mem::take(&mut rep.impl_violations);
+            vs.sort_by_key(|v| v["input"]["src"].as_str().map(|s| s.len()).unwrap_or(usize::MAX));
+            let mut seen = BTreeSet::new();
+            for v in vs {
+                let key = v["key"].as_str().unwrap_or("").to_string();
+                if seen.insert(key) && rep.impl_violations.len() < 6 {
+                    rep.impl_violations.push(v);
+                }
+            }
+            if total_viol > rep.impl_violations.len() {
+                rep.notes.push(format!("{total_viol} violations found; the {} smallest with distinct keys are reported", rep.impl_violations.len()));
             }
             rep.notes.push(format!("programs generated: {from}; argument tuples per program: 8; corpus programs: {}", corpus().len()));
         }
